@@ -798,12 +798,12 @@ type c18BatchDesc struct {
 // batchCase: many values in one case (thorough tier): every value as in a "val" case, every
 // adjacent pair as in a "mono" case.
 func batchCase(w *rig.Writer, xs, lzp []uint64) rig.Case {
-	items := make([]string, len(xs))
+	items := make([]string, 0, 5*len(xs))
 	for i, x := range xs {
-		items[i] = gal.Tuple(gal.N(x), gal.N(metrics.VerifGetBucket(x)), gal.N(metrics.VerifLzcnt(x)), gal.N(lzp[i]))
+		items = append(items, gal.N(x>>32), gal.N(x&0xFFFFFFFF), gal.N(metrics.VerifGetBucket(x)), gal.N(metrics.VerifLzcnt(x)), gal.N(lzp[i]))
 		w.Count(bitsClass(x))
 	}
-	return rig.Case{Desc: c18BatchDesc{Kind: "batch", Xs: xs}, Coq: gal.App("CBatch", gal.List(items)), Nontrivial: true}
+	return rig.Case{Desc: c18BatchDesc{Kind: "batch", Xs: xs}, Coq: "(CBatch " + gal.List(items) + "%uint63)", Nontrivial: true}
 }
 
 func monoCase(w *rig.Writer, n, m uint64) rig.Case {
@@ -1107,6 +1107,12 @@ func c18(e *env) {
 			a, b = b, a
 		}
 		light = append(light, monoCase(w, a, b))
+	}
+
+	// spread the batches (and everything else) evenly
+	for i := len(light) - 1; i > 0; i-- {
+		j := r.Intn(i + 1)
+		light[i], light[j] = light[j], light[i]
 	}
 
 	// histograms, counters, concurrency: run now, spread over the shards afterwards
